@@ -165,10 +165,11 @@ type world struct {
 func uband(n int64) sdk.Coins { return sdk.NewCoins(sdk.NewInt64Coin("uband", n)) }
 
 func pickOf[T any](xs []T, i int) T {
-	if i < 0 {
-		i = -i
+	j := i % len(xs)
+	if j < 0 {
+		j += len(xs)
 	}
-	return xs[i%len(xs)]
+	return xs[j]
 }
 
 func (w *world) buildConfig() sim.Config {
